@@ -251,14 +251,19 @@ class FrameSpec:
                 for cname, ts in fs.row_violations(v, xs, ns, present).items():
                     out[(l, cname)] = ts
         if self.unique:
-            subset = [l for l in self.unique if l in labels]
+            # a list of labels is one jointly unique set; a list of lists declares several sets, each of which must hold
+            sets = self.unique if isinstance(self.unique[0], (list, tuple)) else [self.unique]
             n = len(next(iter(cells.values()))[0]) if cells else 0
             pres = present if present is not None else [T] * n
+            per_set = []
+            for one in sets:
+                subset = [l for l in one if l in labels]
 
-            def eqrow(i, j):
-                return zand(eq_cell(cells[l][0], cells[l][1], i, j) for l in subset)
+                def eqrow(i, j, subset=subset):
+                    return zand(eq_cell(cells[l][0], cells[l][1], i, j) for l in subset)
 
-            out[("*", "joint_unique")] = dup_rows(n, eqrow, self.report_duplicates, pres) if subset else []
+                per_set.append(dup_rows(n, eqrow, self.report_duplicates, pres) if subset else [])
+            out[("*", "joint_unique")] = per_set[0] if len(per_set) == 1 else [zor(ts[i] for ts in per_set if ts) for i in range(n)]
         return out
 
     def satisfied(self, v, arrangement, cells, present=None):
